@@ -136,6 +136,16 @@ def main(argv):
         return 1 if viols else 0
 
     from mc import explore
+    # import the library once in the parent so that forked workers share it
+    for name in ("hydrodiy.data.dutils", "hydrodiy.data.containers", "hydrodiy.stat.transform",
+                 "hydrodiy.stat.metrics", "hydrodiy.stat.sutils", "hydrodiy.gis.grid",
+                 "hydrodiy.io.csv", "hydrodiy.io.hyruns"):
+        try:
+            importlib.import_module(name)
+        except Exception as e:
+            print("HARNESS WARNING: cannot import %s: %r" % (name, e))
+    if hasattr(mod, "preload"):
+        mod.preload()
     t0 = time.time()
     units = mod.units(tier, seed)
     filtered = False
